@@ -27,6 +27,11 @@ type Deadline struct {
 	// final is set once the owner is closed: the deadline then stays expired.
 	// +checklocks:m
 	final bool
+
+	// gen counts calls to SetDeadline. A timer callback only expires the
+	// deadline it was armed for.
+	// +checklocks:m
+	gen uint64
 }
 
 // Done returns a channel. The Deadline will send an error on the channel
@@ -76,6 +81,24 @@ func (d *Deadline) timeout() {
 	d.Cancel(os.ErrDeadlineExceeded)
 }
 
+// timeoutFor is the callback of the timer armed by the gen-th SetDeadline.
+// Stop cannot recall a callback that has already been started, so a callback
+// that lost the race against a later SetDeadline must not expire the new deadline.
+func (d *Deadline) timeoutFor(gen uint64) {
+	d.m.Lock()
+	defer d.m.Unlock()
+	if d.gen != gen {
+		return
+	}
+	d.err = os.ErrDeadlineExceeded
+	select {
+	case <-d.ch:
+		break
+	default:
+		close(d.ch)
+	}
+}
+
 // SetDeadline sets a new time at which the deadline will expire.
 // t will override the current deadline regardless of whether it is
 // before or after the current deadline. Calling SetDeadline with
@@ -90,6 +113,7 @@ func (d *Deadline) SetDeadline(t time.Time) error {
 		return io.EOF
 	}
 	verifYield("Deadline.SetDeadline.locked")
+	d.gen++
 
 	if !d.timer.Stop() {
 		select {
@@ -119,7 +143,8 @@ func (d *Deadline) SetDeadline(t time.Time) error {
 		d.err = os.ErrDeadlineExceeded
 		close(d.ch)
 	} else {
-		d.timer.Reset(t.Sub(start))
+		gen := d.gen
+		d.timer = time.AfterFunc(t.Sub(start), func() { d.timeoutFor(gen) })
 	}
 
 	return nil
